@@ -1285,7 +1285,7 @@ def run_oracle(ctx):
             for ma in (None, 0, 7, -5, ["td", 1, 1, 5], ["td", -1, 86399, 0]):
                 for secure in (False, True):
                     for httponly in (False, True):
-                        for ss in [None] + SAMESITE_OK[:3] + ["None", "foo", "", "future"]:
+                        for ss in [None] + SAMESITE_OK[:3] + ["None", "foo", "", "future", "x; Domain=evil.example"]:
                             for value in (b"v", b"a b;c", None):
                                 for path, domain, comment in ((b"/", None, None), (None, b"d.example", b"c c"), (b"/;x", b"e,v", b'"q"')):
                                     t.check({"api": api, "validate": validate, "name": [115, 105, 100], "value": enc_value(value),
